@@ -164,8 +164,10 @@ def agreement(ctx, f, cfg):
             at = sl.of_operand(a)
             got.append(sorted(x.rsplit(".", 1)[-1] for x in at if x.startswith("field:") and "StatConfig." in x))
         ok = got == [[x] for x in STAT_FIELDS]
-        # error propagated
-        ok = ok and any(callee_is(t2, "Try::branch") and op_place(t2["args"][0])["l"] == t["dest"]["l"] for _, t2 in chk.calls())
+        # error propagated: check() can answer Ok only on the validator's success edge (`?`, match, if-let, is_ok/is_err)
+        oks = [bi for bi, blk in enumerate(chk.blocks) if not blk["cleanup"] for s_ in blk["stmts"]
+               if s_["k"] == "assign" and s_["lhs"]["l"] == 0 and not s_["lhs"]["p"] and s_["rv"]["k"] == "agg" and s_["rv"].get("variant") == "Ok"]
+        ok = ok and bool(oks) and all(ok_edge_dominates(f, chk, x, "call:check_validity_for_reuse_statistic", sl=sl) for x in oks)
     ctx.instance("C17.validator-agreement/check", chk.path, got, [[x] for x in STAT_FIELDS], ok, cfg)
     if not ok:
         ctx.violation("C17.validator-agreement", "C17.validator-agreement|check-args", "ConfigEntity::check does not validate (sample_count, interval_ms, sample_count_total, interval_ms_total) in that role order with the error propagated: %s" % got, chk.loc(), config=cfg)
@@ -209,7 +211,8 @@ def agreement(ctx, f, cfg):
                 roles.append(sorted(x for x in at if x.startswith("param:") or x.endswith(("::sample_count", "::interval_ms"))))
             ok = ("param:sample_count" in roles[0] and "param:interval_ms" in roles[1] and any(x.endswith("::sample_count") for x in roles[2]) and any(x.endswith("::interval_ms") for x in roles[3])
                   and "param:inner" in roles[2] and "param:inner" in roles[3])
-            ok = ok and any(callee_is(t2, "Try::branch") and op_place(t2["args"][0])["l"] == t["dest"]["l"] for _, t2 in sw.calls())
+            aggs = [bi for bi, blk in enumerate(sw.blocks) if not blk["cleanup"] for s_ in blk["stmts"] if s_["k"] == "assign" and s_["rv"]["k"] == "agg" and s_["rv"].get("adt", "").endswith("SlidingWindowMetric")]
+            ok = ok and bool(aggs) and all(ok_edge_dominates(f, sw, x, "call:check_validity_for_reuse_statistic", sl=s3) for x in aggs)
         ctx.instance("C17.validator-agreement/window-ctor", sw.path, roles, "validator(sample_count, interval_ms, inner.sample_count(), inner.interval_ms())?", ok, cfg)
         if not ok:
             ctx.violation("C17.validator-agreement", "C17.validator-agreement|window-ctor", "SlidingWindowMetric::new does not apply the reuse validator to (its parameters, the array's geometry)", sw.loc(), config=cfg)
@@ -281,7 +284,7 @@ def no_panic(ctx, f, cfg):
         if ps.discharge_local(s):
             continue
         atoms = site_atoms(f, s)
-        if table_row(s, atoms) or ps.discharge_in_context(s):
+        if table_row(s, atoms, f) or ps.discharge_in_context(s):
             continue
         und += 1
         ctx.violation("C17.no-panic", "C17.no-panic|%s|%s|%s" % (b.path.replace("core::", "", 1), s["kind"], _origin_key(atoms)),
